@@ -56,6 +56,10 @@ class TemperatureArray(TemperatureProfile):
         temperature = super().write(output)
 
         temperature.write_scalar('tp_array', self._tp_profile)
+        # The pressure points (already in the order given by ``reverse``) are
+        # a constructor argument that changes the profile
+        if self._p_profile is not None:
+            temperature.write_array('p_points', self._p_profile)
 
         return temperature
 
